@@ -230,15 +230,31 @@ def explore(ctx):
                 "variable_fonts": ["VFFull: all sources", "VFWght: sources 0 and 2 (Width fixed at 100)"] if multi else None}
         tagmap = {a.name: a.tag for a in ds.axes}
         wkw = {}
+        if i % 7 == 3 and fn.startswith("compileVariableTTF"):
+            wkw["optimizeGvar"] = False          # (IUP optimisation off: more deltas stored, same instances)
+            case["optimizeGvar"] = False
+            ctx.klass("optimizeGvar=False")
         if i % 4 == 1:
             # the other kern writer shipped with ufo2ft (its variable-kerning code is separate)
             from ufo2ft.featureWriters.kernFeatureWriter2 import KernFeatureWriter as KernFeatureWriter2
             from ufo2ft.featureWriters import MarkFeatureWriter, GdefFeatureWriter, CursFeatureWriter
-            wkw = {"featureWriters": [KernFeatureWriter2, MarkFeatureWriter, GdefFeatureWriter, CursFeatureWriter]}
+            wkw["featureWriters"] = [KernFeatureWriter2, MarkFeatureWriter, GdefFeatureWriter, CursFeatureWriter]
             case["kern_writer"] = "kernFeatureWriter2"
         try:
             if multi:
                 vfs = getattr(ufo2ft, fn)(ds, variableFeatures=vfeat, **wkw)
+                # building only one of the variable fonts (variableFontNames) gives that font, and only it
+                only = getattr(ufo2ft, fn)(ds, variableFeatures=vfeat, variableFontNames=["VFWght"], **wkw)
+                if sorted(only) != ["VFWght"]:
+                    ctx.spec_failure(case, "variableFontNames=['VFWght'] built %r" % sorted(only))
+                else:
+                    def tabs(tt):
+                        b = io.BytesIO(); tt.save(b); t2 = TTFont(io.BytesIO(b.getvalue()))
+                        return {t: t2.reader[t] for t in t2.reader.keys() if t != "head"}
+                    ta, tb = tabs(only["VFWght"]), tabs(vfs["VFWght"])
+                    if ta != tb:
+                        ctx.spec_failure(case, "VFWght built alone differs from VFWght built together with VFFull in %r" % sorted(
+                            t for t in set(ta) | set(tb) if ta.get(t) != tb.get(t)))
                 targets = []
                 for vname, keep in (("VFFull", [0, 1, 2]), ("VFWght", [0, 2])):
                     b = io.BytesIO(); vfs[vname].save(b)
